@@ -19,8 +19,8 @@ META = {
                   "behave.configuration.Configuration.setup_tag_expression ({config.tags} substitution)"],
     "bounds": {
         "quick": "all trees of depth<=1 and a seeded sample of 80 depth-2 trees over 6 operands (plain, dotted, dash/'=' names, wildcards "
-                 "a.*, ?x, [ab]c), each in 6 renderings; for each expression ALL subsets of a 14-tag universe (tag membership = 14 z3 Booleans)",
-        "thorough": "all depth<=2 trees over 4 operands plus 600 seeded depth-2/3 trees over 6 operands, 6 renderings",
+                 "a.*, ?x, [ab]c), each in 10 renderings; for each expression ALL subsets of a 14-tag universe (tag membership = 14 z3 Booleans)",
+        "thorough": "all depth<=2 trees over 4 operands plus 600 seeded depth-2/3 trees over 6 operands, 10 renderings",
     },
     "outside": ["tag names as unbounded symbolic strings (fnmatch compiles to a C regex); names needing escapes (spaces, parentheses, backslashes)"],
     "assumptions": ["wildcard meaning in the oracle = own shell-style matcher (*, ?, [seq], [!seq]) written from the fnmatch documentation"],
@@ -29,7 +29,7 @@ META = {
 
 OPERANDS = [["lit", "a"], ["lit", "b.c"], ["lit", "x-y=1"], ["wild", "a.*"], ["wild", "?x"], ["wild", "[ab]c"]]
 UNIVERSE = ["a", "b.c", "x-y=1", "a.x", "a.", "ax", "A.x", "A", "zx", "x", "ac", "bc", "cc", "zzz"]
-RENDERINGS = ["min", "at", "allparens", "spaces", "list", "list-at", "list-parens"]
+RENDERINGS = ["min", "at", "allparens", "spaces", "list", "list-at", "list-parens", "wrap", "wrap-at", "list-wrap"]
 
 
 def tagset(sx, universe, prefix="has:"):
@@ -50,6 +50,12 @@ def render(tree, how):
         return "  " + T.render_v2(tree, space="  ") + " "
     if how == "list":
         return T.render_v2_list(tree)
+    if how == "wrap":           # redundant parentheses around the whole expression: "(a)", "( a or b )"
+        return "( %s )" % T.render_v2(tree)
+    if how == "wrap-at":
+        return "(%s)" % T.render_v2(tree, at=True)
+    if how == "list-wrap":
+        return ["(%s)" % t for t in T.render_v2_list(tree)]
     if how == "list-parens":
         # list-of-terms form whose terms have every operand parenthesised: "(a) or (b)", "not (a)"
         terms = tree[1:] if tree[0] == "and" else [tree]
@@ -132,12 +138,13 @@ def h_special(sx):
     i = i if isinstance(i, int) else i.concretize()
     dtree = defaults[i]
     dtext = T.render_v2(dtree, at=bool(sx.params.get("at")))
-    for outer, otree in (("{config.tags} and x", ["and", dtree, ["lit", "x"]]),
+    for outer, otree in (("({config.tags})", dtree),
+                         ("{config.tags} and x", ["and", dtree, ["lit", "x"]]),
                          ("not {config.tags}", ["not", dtree]),
                          ("zzz or {config.tags}", ["or", ["lit", "zzz"], dtree]),
                          ("{config.tags} or zzz and x", ["or", dtree, ["and", ["lit", "zzz"], ["lit", "x"]]])):
         cfg = base_config(("--no-summary",))
-        cfg.tag_expression_protocol = TagExpressionProtocol.V2
+        cfg.tag_expression_protocol = TagExpressionProtocol.V2 if sx.params.get("protocol", "v2") == "v2" else TagExpressionProtocol.AUTO_DETECT
         cfg.config_tags = dtext
         cfg.default_tags = ""
         cfg.tags = outer if not sx.params.get("as_list") else [outer]
@@ -170,7 +177,9 @@ def jobs(tier, seed):
                 ["or", ["not", ["lit", "a"]], ["and", ["lit", "b.c"], ["wild", "[ab]c"]]], ["not", ["or", ["lit", "a"], ["lit", "b.c"]]]]
     for at in (False, True):
         for as_list in (False, True):
-            js.append(Job("special.at%d.list%d" % (at, as_list), "props.c07:h_special", {"defaults": defaults, "at": at, "as_list": as_list},
-                          reach=["C07.empty-selects-everything", "C07.config-tags-substitution"], min_paths=6, cost=50,
-                          validate=30, closure=False))
+            for proto in ("v2", "auto"):
+                js.append(Job("special.at%d.list%d.%s" % (at, as_list, proto), "props.c07:h_special",
+                              {"defaults": defaults, "at": at, "as_list": as_list, "protocol": proto},
+                              reach=["C07.empty-selects-everything", "C07.config-tags-substitution"], min_paths=6, cost=50,
+                              validate=30, closure=False))
     return js
